@@ -196,11 +196,10 @@ theorem lrHare_result (votes : Votes) (N : Nat) (prev : Seats) (r : Dist) (h : l
   | ok qe =>
     rw [hqe] at h
     simp only at h
-    unfold hareQuotaSeats at hqe
-    by_cases hn0 : N = 0
-    · rw [if_pos hn0] at hqe; simp at hqe
-    · rw [if_neg hn0] at hqe
-      obtain ⟨hqeq, hqne⟩ := hareQuota_foldl (sumVals votes / (N : Rat)) prev votes [] qe hqe
+    obtain ⟨hn0, _, hqe⟩ := hareQuotaSeats_ok votes N prev qe hqe
+    by_cases hn0' : N = 0
+    · exact absurd hn0' hn0
+    · obtain ⟨hqeq, hqne⟩ := hareQuota_foldl (sumVals votes / (N : Rat)) prev votes [] qe hqe
       rw [List.nil_append] at hqeq
       by_cases hover : N < sumSeats qe + sumSeats prev
       · rw [if_pos hover] at h; simp at h
